@@ -4,6 +4,7 @@ pub mod c01;
 pub mod c01_comp;
 pub mod c02;
 pub mod c03;
+pub mod c03b;
 pub mod c04;
 pub mod rxgen;
 pub mod c05;
@@ -13,6 +14,7 @@ pub mod c07;
 pub mod c17;
 pub mod c18;
 pub mod c19;
+pub mod c19t;
 pub mod c08;
 pub mod c09;
 pub mod c09b;
